@@ -33,6 +33,60 @@ def printed(e):
     return None, None
 
 
+def cli_dvbs2_table(ck, F, rule):
+    # ---- L1 ---------------------------------------------------------------------------------------
+    cb = F.body("cli::dvbs2::Args::code")
+    m = [x for x in find_matches(cb.value) if len(x["arms"]) > 5]
+    if len(m) != 1:
+        raise AnalysisError("cli::dvbs2::Args::code: expected one table-like match")
+    ev = SymEval(F)
+    env = {}
+    ev.bind(cb.params[0], var("self"), env)
+    scr = ev.eval(m[0]["e"], env)
+    ck.inst(rule, "scrutinee", scr == ("tuple", [var("self.rate"), var("self.short")]), cb.span, "table is indexed by (rate string, short flag): %r" % (scr,))
+    variants = [v["name"] for v in F.adt("codes::dvbs2::Code")["variants"]]
+    seen = {}
+    wild_ok = False
+    for key, guard, body, arm in match_rows(m[0]):
+        if is_catch_all(key):
+            wild_ok = diverges_with_err(body) or last_seg(callee(strip(body)) or "") == "Err"
+            continue
+        rate, short = key
+        v = value_path(body)
+        a, b_ = rate.split("/")
+        want = "R%s_%s%s" % (a, b_, "short" if short else "")
+        seen.setdefault(v, []).append(key)
+        ck.inst(rule, "row:%s%s" % (rate, ":short" if short else ""), v == want and guard is None, arm["sp"],
+                "(%r, short=%s) -> %s ; naming law: %s" % (rate, short, v, want), {"key": [rate, short], "code": v})
+    ck.floor(rule, "table rows", sum(len(v) for v in seen.values()), 21)
+    ck.inst(rule, "coverage", sorted(seen) == sorted(variants) and all(len(v) == 1 for v in seen.values()), cb.span,
+            "every Code variant is reachable from exactly one (rate, short) pair: missing %s, duplicated %s" % (
+                sorted(set(variants) - set(seen)), sorted(k for k, v in seen.items() if len(v) > 1)))
+    ck.inst(rule, "reject-others", wild_ok, cb.span, "any other (rate, short) combination yields Err")
+
+
+
+def cli_ccsds_tables(ck, F, rule):
+    # ---- L2 ---------------------------------------------------------------------------------------
+    cc = F.body("cli::ccsds::Args::code")
+    ms = find_matches(cc.value)
+    tabs = {}
+    for mm in ms:
+        rows = match_rows(mm)
+        kind = "rate" if any(isinstance(k, str) and "/" in k for k, *_ in rows) else "size"
+        for key, guard, body, arm in rows:
+            if is_catch_all(key):
+                tabs.setdefault(kind + ":wild", diverges_with_err(body))
+                continue
+            v = value_path(body)
+            want = ("R" + key.replace("/", "_")) if kind == "rate" else "K%d" % key
+            ck.inst(rule, "%s:%s" % (kind, key), v == want, arm["sp"], "%r -> %s (naming law %s)" % (key, v, want))
+            tabs.setdefault(kind, []).append(key)
+    ck.inst(rule, "tables-complete", sorted(tabs.get("rate", [])) == ["1/2", "2/3", "4/5"] and sorted(tabs.get("size", [])) == [1024, 4096, 16384]
+            and tabs.get("rate:wild") and tabs.get("size:wild"), cc.span, "rates %s, sizes %s, other values rejected with Err" % (tabs.get("rate"), tabs.get("size")))
+
+
+
 def run(ck, F, tier):
     ck.explanation = (
         "Decided (S): L1 the DVB-S2 (rate string, short flag) -> Code table follows the naming law for all 21 codes and rejects the rest; "
@@ -50,53 +104,9 @@ def run(ck, F, tier):
     ck.rule("L5", "errors, not panics, in the subcommands")
     ck.rule("L6", "ber result lines")
 
-    # ---- L1 ---------------------------------------------------------------------------------------
-    cb = F.body("cli::dvbs2::Args::code")
-    m = [x for x in find_matches(cb.value) if len(x["arms"]) > 5]
-    if len(m) != 1:
-        raise AnalysisError("cli::dvbs2::Args::code: expected one table-like match")
-    ev = SymEval(F)
-    env = {}
-    ev.bind(cb.params[0], var("self"), env)
-    scr = ev.eval(m[0]["e"], env)
-    ck.inst("L1", "scrutinee", scr == ("tuple", [var("self.rate"), var("self.short")]), cb.span, "table is indexed by (rate string, short flag): %r" % (scr,))
-    variants = [v["name"] for v in F.adt("codes::dvbs2::Code")["variants"]]
-    seen = {}
-    wild_ok = False
-    for key, guard, body, arm in match_rows(m[0]):
-        if is_catch_all(key):
-            wild_ok = diverges_with_err(body) or last_seg(callee(strip(body)) or "") == "Err"
-            continue
-        rate, short = key
-        v = value_path(body)
-        a, b_ = rate.split("/")
-        want = "R%s_%s%s" % (a, b_, "short" if short else "")
-        seen.setdefault(v, []).append(key)
-        ck.inst("L1", "row:%s%s" % (rate, ":short" if short else ""), v == want and guard is None, arm["sp"],
-                "(%r, short=%s) -> %s ; naming law: %s" % (rate, short, v, want), {"key": [rate, short], "code": v})
-    ck.floor("L1", "table rows", sum(len(v) for v in seen.values()), 21)
-    ck.inst("L1", "coverage", sorted(seen) == sorted(variants) and all(len(v) == 1 for v in seen.values()), cb.span,
-            "every Code variant is reachable from exactly one (rate, short) pair: missing %s, duplicated %s" % (
-                sorted(set(variants) - set(seen)), sorted(k for k, v in seen.items() if len(v) > 1)))
-    ck.inst("L1", "reject-others", wild_ok, cb.span, "any other (rate, short) combination yields Err")
-
-    # ---- L2 ---------------------------------------------------------------------------------------
+    cli_dvbs2_table(ck, F, "L1")
+    cli_ccsds_tables(ck, F, "L2")
     cc = F.body("cli::ccsds::Args::code")
-    ms = find_matches(cc.value)
-    tabs = {}
-    for mm in ms:
-        rows = match_rows(mm)
-        kind = "rate" if any(isinstance(k, str) and "/" in k for k, *_ in rows) else "size"
-        for key, guard, body, arm in rows:
-            if is_catch_all(key):
-                tabs.setdefault(kind + ":wild", diverges_with_err(body))
-                continue
-            v = value_path(body)
-            want = ("R" + key.replace("/", "_")) if kind == "rate" else "K%d" % key
-            ck.inst("L2", "%s:%s" % (kind, key), v == want, arm["sp"], "%r -> %s (naming law %s)" % (key, v, want))
-            tabs.setdefault(kind, []).append(key)
-    ck.inst("L2", "tables-complete", sorted(tabs.get("rate", [])) == ["1/2", "2/3", "4/5"] and sorted(tabs.get("size", [])) == [1024, 4096, 16384]
-            and tabs.get("rate:wild") and tabs.get("size:wild"), cc.span, "rates %s, sizes %s, other values rejected with Err" % (tabs.get("rate"), tabs.get("size")))
     evc = Tracer(F, r"codes::ccsds::AR4JACode::new")
     env = {}
     evc.bind(cc.params[0], var("self"), env)
@@ -265,6 +275,25 @@ def run(ck, F, tier):
         ok = ncol_h == 11 and ncol_r == 11 and names == want
         why = "header has %d columns, row format has %d, fields in order %s" % (ncol_h, ncol_r, names)
     ck.inst("L6", "columns", ok, fb.span, why)
+    # every per-code column (a field of CodeStatistics) must come from the one selected statistics object, so that the error
+    # counts and the rates printed on one line satisfy ber = bit_errors/bits and fer = frame_errors/frames of the same object
+    if fm:
+        selected = None
+        bodyb = strip(fb.value)
+        for st in bodyb.get("stmts", []) if bodyb.get("k") == "block" else []:
+            if st.get("k") == "let" and st.get("init") is not None and strip(st["init"]).get("k") == "match" and st["pat"].get("k") == "bind":
+                selected = st["pat"]["name"]
+        bad = []
+        nper = 0
+        for a in fm[1]:
+            a = strip(a)
+            if a.get("k") == "field" and "CodeStatistics" in (strip(a["e"]).get("ty") or ""):
+                nper += 1
+                ap = access_path(a)
+                if not (ap and len(ap) == 2 and ap[0] == selected):
+                    bad.append(".".join(x.split("#")[0] for x in ap) if ap else "?")
+        ck.inst("L6", "per-code-columns-from-selected-object", selected is not None and nper == 5 and not bad, fb.span,
+                "%d per-code columns, all read from the selected statistics binding%s" % (nper, "" if not bad else "; read elsewhere: %s" % bad))
     sel = [mm for mm in find_matches(fb.value) if len(mm["arms"]) == 3]
     oks = False
     if len(sel) == 1:
